@@ -1412,4 +1412,38 @@ example :
     s.cli.crcvs.length = 0 ∧ s.cli.released = [1] := by
   decide +kernel
 
+/-- `never_wrong_body_block2_composed_partial` for the system WITH tokens and the lg_crcv LIST (`b2tStep`): there a
+response only meets the lg_crcv its token selects (state-token base or application token, first match in list order),
+a response whose token matches none is treated as on a session without lg_crcv although others exist (dropped /
+"random access" / a NEW lg_crcv prepended next to the old ones), `coap_send` replaces the first lg_crcv with the
+application's token only, any single lg_crcv may time out.  EVERY schedule, no hypothesis on datagrams or tokens: every
+handler output is the server's body / an exact slice, and a block response is never passed on as a plain one.
+Invariant `B2TInv` = `B2Inv` with every lg_crcv of the list (and none) in the client's place; `cliOnRsp_inv` /
+`srvOnReq_inv` are re-used per element (`crcvStepT_lg`: the step IS `crcvStep` on the matched element or on none).
+Same exclusions as the `_partial` theorem except "tokens" (single-message response bodies, application-built answers
+to follow-up requests without lg_xmit, timers). -/
+theorem never_wrong_body_block2_composed_tokens (P : B2Par) (hP : B2ParOK P) (app : Bytes) (evs : List B2TEvent) :
+    ∀ o, o ∈ (b2tRun P app {} evs).net.outs →
+      (∀ d l, o = CrcvOut.body d l → P.single = true ∧ d.take l = P.body ∧ l = P.body.length) ∧
+      (∀ off p total nx, o = CrcvOut.block off p total nx →
+        P.single = false ∧ ∃ k szx, k < nBlocks P.body.length szx ∧ off = k * chunkSize szx ∧ p = slice P.body szx k) ∧
+      (∀ off p total, o = CrcvOut.last off p total →
+        P.single = false ∧ ∃ k szx, k < nBlocks P.body.length szx ∧ off = k * chunkSize szx ∧ p = slice P.body szx k) ∧
+      (∀ off p total, o = CrcvOut.randomAccess off p total →
+        ∃ k szx, k < nBlocks P.body.length szx ∧ off = k * chunkSize szx ∧ p = slice P.body szx k) ∧
+      (∀ p, o ≠ CrcvOut.plain p) :=
+  (b2tRun_body_inv P hP app evs {} (b2TInv_init P)).1.outs
+
+/-- two lg_crcvs at once (an old one whose follow-up response is still under way when the application asks again and the
+new GET's first response arrives matched): each response goes to the lg_crcv its token selects; both bodies complete -/
+example :
+    let app : Bytes := [0xa1, 0xa2]
+    let evs : List B2TEvent := [.appGet 0, .reqArrives 0, .rspArrives 0 true, .reqArrives 1, .cliExpire 0,
+      .rspArrives 0 true, .rspArrives 1 true]
+    let s := b2tRun (exPar true) app {} evs
+    s.cli.crcvs.map (fun e => (e.appTok, stateTokenBase e.state, e.retry)) = [(app, 2, 2)] ∧
+    s.net.outs = [.next 1 0, .next 1 0, .randomAccess 16 ((exPar true).body.drop 16 |>.take 16) 33] ∧
+    s.hToks = [([0x20, 0, 0, 0, 0, 1], [1])] := by
+  decide +kernel
+
 end Coap.C09
